@@ -1,5 +1,6 @@
 import Casm.Proofs.KindInv
 import Casm.Proofs.FrontSyms
+import Casm.Proofs.FrontOKSb
 /-!
 # Casm.Proofs.FrontInv — what the front end guarantees about symbol nodes
 
@@ -402,5 +403,233 @@ theorem collectAll_ext (d d' : Decls) (nodes nodes' : List AstNode) (hk : KInv d
             rcases o4 n hn4 r hr with h | h
             · exact Or.inl (r13 n h (by rw [hr]; rfl))
             · right; rw [e13] at h; exact h
+
+/-! ## the facts about symbol slots -/
+
+theorem evalSimple_indep (d1 d2 : Decls) (f1 f2 : Defs) (e : Expr) (hk : staticallyKnown pureP e = true) :
+    evalSimple d2 f2 e = evalSimple d1 f1 e := by
+  rw [evalSimple_eq, evalSimple_eq]
+  have ag : Agree pureP (simpleEnv d1 f1) (simpleEnv d2 f2) := by
+    refine ⟨fun l path hq => (by cases hq), fun _ _ _ => rfl, ?_⟩
+    intro n hq _
+    exact ⟨n, simpleEnv_asmBuiltin d1 f1 n hq, simpleEnv_asmBuiltin d2 f2 n hq⟩
+  have hp : ProviderOK pureP := fun n _ => rfl
+  have hc : CtxInv pureP {} := ⟨fun n _ _ => rfl, fun n l hl _ => by cases hl⟩
+  rw [(eval_static pureP hp _ _ ag {} e hk hc).1]
+
+def notDefined (opts : Opts) (d : Decls) (r : Nat) : Bool :=
+  (opts.defines.find? (·.1 == (d.symbols.decls.getD r default).name)).isNone
+
+/-- what holds of the slot of a referenced symbol node -/
+def NI (opts : Opts) (d : Decls) (defs : Defs) (n : AstNode) : Prop :=
+  match n with
+  | .symbol _ _ .label _ (some r) => (defs.sym r).value = .unknown
+  | .symbol _ _ (.constant e) _ (some r) =>
+    ((defs.symbols.getD r none).isSome = true → (defs.sym r).known = staticallyKnown pureP e) ∧
+    ((defs.sym r).resolved = true → (defs.sym r).known = true → notDefined opts d r = true →
+      (defs.sym r).value ≠ .unknown ∧ ∀ d' defs', evalSimple d' defs' e = .ok (defs.sym r).value)
+  | _ => True
+
+structure FInv (opts : Opts) (d : Decls) (defs : Defs) (nodes : List AstNode) : Prop where
+  kinv : KInv d.symbols nodes
+  fn : SymFun nodes
+  s0 : ∀ r, (defs.symbols.getD r none).isSome = true → r < d.symbols.decls.length
+  ni : ∀ n ∈ nodes, NI opts d defs n
+
+def SlotsOK (defs : Defs) (nodes : List AstNode) : Prop :=
+  ∀ n ∈ nodes, ∀ r, symRef n = some r → (defs.symbols.getD r none).isSome = true
+
+theorem sym_of_noslot (defs : Defs) (r : Nat) (h : (defs.symbols.getD r none).isSome = false) : defs.sym r = {} := by
+  unfold Defs.sym
+  cases hx : defs.symbols.getD r none with
+  | none => rfl
+  | some s => rw [hx] at h; cases h
+
+theorem FInv.collect {opts : Opts} {d d' : Decls} {defs : Defs} {nodes nodes' : List AstNode} (f : FInv opts d defs nodes)
+    (h : collectAll d nodes = .ok (d', nodes')) : FInv opts d' defs nodes' := by
+  obtain ⟨hext, hfn, hsrc⟩ := collectAll_ext d d' nodes nodes' f.kinv f.fn h
+  refine ⟨collectAll_kinv d d' nodes nodes' f.kinv h, hfn, fun r hr => Nat.lt_of_lt_of_le (f.s0 r hr) hext.1, ?_⟩
+  intro n hn
+  cases hr : symRef n with
+  | none =>
+    -- not a referenced symbol node
+    cases n with
+    | symbol l nm kd ne rr =>
+      cases rr with
+      | none => cases kd <;> trivial
+      | some r => cases hr
+    | _ => trivial
+  | some r =>
+    rcases hsrc n hn r hr with hold | hnew
+    · -- an old node: the name of its declaration is unchanged
+      have hni := f.ni n hold
+      have hkn := f.kinv n hold
+      cases n with
+      | symbol l nm kd ne rr =>
+        cases rr with
+        | none => cases hr
+        | some r' =>
+          simp only [symRef, Option.some.injEq] at hr
+          subst hr
+          simp only [KN] at hkn
+          cases kd with
+          | label => exact hni
+          | constant e =>
+            simp only [NI] at hni ⊢
+            refine ⟨hni.1, fun h1 h2 h3 => hni.2 h1 h2 ?_⟩
+            unfold notDefined at h3 ⊢
+            rw [hext.2 r' hkn.1] at h3
+            exact h3
+      | _ => cases hr
+    · -- a new node: its slot does not exist yet
+      have hno : (defs.symbols.getD r none).isSome = false := by
+        cases hx : (defs.symbols.getD r none).isSome with
+        | false => rfl
+        | true => have := f.s0 r hx; omega
+      have hs := sym_of_noslot defs r hno
+      cases n with
+      | symbol l nm kd ne rr =>
+        cases rr with
+        | none => cases hr
+        | some r' =>
+          simp only [symRef, Option.some.injEq] at hr
+          subst hr
+          cases kd with
+          | label => simp only [NI, hs]
+          | constant e =>
+            simp only [NI, hs, hno]
+            exact ⟨fun h => (by cases h), fun h => (by cases h)⟩
+      | _ => cases hr
+
+theorem slot_padset (l : List (Option SymDef)) (r r' : Nat) (sd : SymDef) :
+    ((padTo l r none).set r (some sd)).getD r' none = if r' = r then some sd else l.getD r' none := by
+  by_cases h : r' = r
+  · subst h
+    simp only [if_true]
+    exact getD_set_self_lt _ _ _ _ (padTo_length_gt _ _ _)
+  · simp only [h, if_false]
+    rw [getD_set_ne _ _ _ _ _ (Ne.symm h), padTo_getD]
+
+/-- `NI` reads the state through the slot and the entry of the node's own symbol only -/
+theorem NI_congr (opts : Opts) (d : Decls) (defs defs' : Defs) (n : AstNode)
+    (h : ∀ r, symRef n = some r → defs'.sym r = defs.sym r ∧ (defs'.symbols.getD r none).isSome = (defs.symbols.getD r none).isSome)
+    (hn : NI opts d defs n) : NI opts d defs' n := by
+  cases n with
+  | symbol l nm kd ne rr =>
+    cases rr with
+    | none => cases kd <;> trivial
+    | some r =>
+      obtain ⟨h1, h2⟩ := h r rfl
+      cases kd with
+      | label => simp only [NI, h1] at hn ⊢; exact hn
+      | constant e => simp only [NI, h1, h2] at hn ⊢; exact hn
+  | _ => trivial
+
+theorem FInv.define_step {opts : Opts} {d : Decls} {defs : Defs} {nodes : List AstNode} (f : FInv opts d defs nodes)
+    (lv : Nat) (nm : String) (kind : SymKind) (ne : Bool) (r : Nat) (hn : AstNode.symbol lv nm kind ne (some r) ∈ nodes)
+    (hno : (defs.symbols.getD r none).isSome = false) (known : Bool)
+    (hk : ∀ e, kind = .constant e → known = staticallyKnown pureP e) :
+    FInv opts d { defs with symbols := (padTo defs.symbols r none).set r (some { noEmit := ne, known := known }) } nodes := by
+  refine ⟨f.kinv, f.fn, fun r' hr' => ?_, fun m hm => ?_⟩
+  · simp only [slot_padset] at hr'
+    by_cases he : r' = r
+    · subst he
+      have := f.kinv _ hn
+      simp only [KN] at this
+      exact this.1
+    · simp only [he, if_false] at hr'
+      exact f.s0 r' hr'
+  · by_cases hr : symRef m = some r
+    · have hm' : m = AstNode.symbol lv nm kind ne (some r) := f.fn m hm _ hn r hr rfl
+      subst hm'
+      cases kind with
+      | label =>
+        simp only [NI, sym_padset, if_true]
+      | constant e =>
+        simp only [NI, sym_padset, slot_padset, if_true]
+        exact ⟨fun _ => hk e rfl, fun h => (by cases h)⟩
+    · refine NI_congr opts d defs _ m (fun r' hr' => ?_) (f.ni m hm)
+      have hne : r' ≠ r := fun he => hr (by rw [hr', he])
+      simp only [sym_padset, slot_padset, hne, if_false]
+      exact ⟨trivial, trivial⟩
+
+def defineStep (defs : Defs) (n : AstNode) : Defs :=
+  match n with
+  | .symbol _ _ kind ne (some r) =>
+    if ((defs.symbols.getD r none).isSome) then defs
+    else
+      let known := match kind with
+        | .constant e => staticallyKnown { queryFunction := asmBuiltinKnown } e
+        | .label => false
+      { defs with symbols := (padTo defs.symbols r none).set r (some { noEmit := ne, known := known }) }
+  | _ => defs
+
+theorem defineSymbols_eq (defs : Defs) (l : List AstNode) : defineSymbols defs l = l.foldl defineStep defs := rfl
+
+theorem FInv.define_one {opts : Opts} {d : Decls} {defs : Defs} {nodes : List AstNode} (f : FInv opts d defs nodes)
+    (n : AstNode) (hn : n ∈ nodes) :
+    FInv opts d (Casm.defineStep defs n) nodes ∧
+      (∀ r, symRef n = some r → ((Casm.defineStep defs n).symbols.getD r none).isSome = true) ∧
+      (∀ r, (defs.symbols.getD r none).isSome = true → ((Casm.defineStep defs n).symbols.getD r none).isSome = true) := by
+  cases n with
+  | symbol lv nm kind ne rr =>
+    cases rr with
+    | none => exact ⟨f, fun _ h => (by cases h), fun _ h => h⟩
+    | some r =>
+      by_cases hs : (defs.symbols.getD r none).isSome = true
+      · have : Casm.defineStep defs (.symbol lv nm kind ne (some r)) = defs := by simp only [Casm.defineStep, hs, if_true]
+        rw [this]
+        refine ⟨f, fun r' hr' => ?_, fun _ h => h⟩
+        simp only [symRef, Option.some.injEq] at hr'
+        subst hr'; exact hs
+      · have hno : (defs.symbols.getD r none).isSome = false := by simpa using hs
+        have key : ∀ (known : Bool), (∀ e, kind = .constant e → known = staticallyKnown pureP e) →
+            let defs1 : Defs := { defs with symbols := (padTo defs.symbols r none).set r (some { noEmit := ne, known := known }) }
+            FInv opts d defs1 nodes ∧
+              (∀ r', symRef (AstNode.symbol lv nm kind ne (some r)) = some r' → (defs1.symbols.getD r' none).isSome = true) ∧
+              (∀ r', (defs.symbols.getD r' none).isSome = true → (defs1.symbols.getD r' none).isSome = true) := by
+          intro known hk
+          refine ⟨f.define_step lv nm kind ne r hn hno known hk, fun r' hr' => ?_, fun r' hr' => ?_⟩
+          · simp only [symRef, Option.some.injEq] at hr'
+            subst hr'
+            simp only [slot_padset, if_true, Option.isSome_some]
+          · simp only [slot_padset]
+            by_cases he : r' = r
+            · simp only [he, if_true, Option.isSome_some]
+            · simp only [he, if_false]; exact hr'
+        cases kind with
+        | label =>
+          have : Casm.defineStep defs (.symbol lv nm .label ne (some r)) =
+              { defs with symbols := (padTo defs.symbols r none).set r (some { noEmit := ne, known := false }) } := by
+            simp only [Casm.defineStep, hno, Bool.false_eq_true, if_false]
+          rw [this]
+          exact key false (fun e he => by cases he)
+        | constant e =>
+          have : Casm.defineStep defs (.symbol lv nm (.constant e) ne (some r)) =
+              { defs with symbols := (padTo defs.symbols r none).set r (some { noEmit := ne, known := staticallyKnown pureP e }) } := by
+            simp only [Casm.defineStep, hno, Bool.false_eq_true, if_false]
+            rfl
+          rw [this]
+          exact key _ (fun e' he => by injection he with he; rw [he])
+  | _ => exact ⟨f, fun _ h => (by cases h), fun _ h => h⟩
+
+theorem FInv.define {opts : Opts} {d : Decls} {nodes : List AstNode} :
+    ∀ (l : List AstNode) (defs : Defs), (∀ n ∈ l, n ∈ nodes) → FInv opts d defs nodes →
+      FInv opts d (defineSymbols defs l) nodes ∧
+      (∀ n ∈ l, ∀ r, symRef n = some r → ((defineSymbols defs l).symbols.getD r none).isSome = true) ∧
+      (∀ r, (defs.symbols.getD r none).isSome = true → ((defineSymbols defs l).symbols.getD r none).isSome = true) := by
+  intro l
+  induction l with
+  | nil => intro defs _ f; exact ⟨f, fun _ hn => (by cases hn), fun _ h => h⟩
+  | cons n rest ih =>
+    intro defs hsub f
+    have hrest : ∀ m ∈ rest, m ∈ nodes := fun m hm => hsub m (List.mem_cons_of_mem _ hm)
+    obtain ⟨f1, s1, m1⟩ := f.define_one n (hsub n List.mem_cons_self)
+    obtain ⟨f2, s2, m2⟩ := ih (Casm.defineStep defs n) hrest f1
+    rw [defineSymbols_eq, List.foldl_cons, ← defineSymbols_eq]
+    refine ⟨f2, fun m hm r hr => ?_, fun r hr => m2 r (m1 r hr)⟩
+    cases hm with
+    | head => exact m2 r (s1 r hr)
+    | tail _ hm => exact s2 m hm r hr
 
 end Casm
